@@ -263,6 +263,23 @@ def run_tfinv(case):
         e = relerr(bv.values, a.values)
         if e > 1e-8:
             F.append(Finding("oracle", "transform_inverse_id", cc, f"field {i}: transform(inverse_transform(s)) differs from s by rel {e:.2e}"))
+    # cross-set models: "arbitrary score arrays with arbitrary sample coordinates" — the two fields need not share their samples
+    if two and len(news) == 2:
+        tc2 = np.arange(500, 500 + ns + 2)
+        s2 = sc[1]
+        v2 = rng.normal(size=(s2.sizes["mode"], ns + 2)) * 3.0 + (1j * rng.normal(size=(s2.sizes["mode"], ns + 2)) if np.iscomplexobj(s2.values) else 0)
+        other = xr.DataArray(v2, dims=("mode", "time"), coords={"mode": s2.mode.values, "time": tc2})
+        try:
+            rec2 = zoo.inverse_transform(cls, m, [news[0], other])
+            back2 = zoo.transform(cls, m, tuple(rec2))
+            for i, (a, b, lab) in enumerate(zip([news[0], other], back2, [tc, tc2])):
+                bv = b.transpose("mode", "time")
+                if bv.sizes["time"] != len(lab) or not np.array_equal(np.asarray(bv.time.values), lab):
+                    F.append(Finding("oracle", "transform_inverse_id", cc + "|fields-with-different-samples|labels", f"field {i}: {bv.sizes['time']} samples labelled {bv.time.values[:4]}..., given {len(lab)} labelled {lab[:4]}..."))
+                elif relerr(bv.values, a.values) > 1e-8:
+                    F.append(Finding("oracle", "transform_inverse_id", cc + "|fields-with-different-samples", f"field {i}: rel {relerr(bv.values, a.values):.2e}"))
+        except Exception as e:  # noqa: BLE001
+            F.append(Finding("oracle", "transform_inverse_id", cc + "|fields-with-different-samples|raises", f"{type(e).__name__}: {str(e)[:160]}"))
     return {"findings": F, "info": {"oracle_checks": {"tfinv": len(news)}, "dist": {"kind": "tfinv", "cls": cls}}}
 
 
